@@ -43,6 +43,11 @@ def rule_D4(tree: Tree) -> RuleResult:
     ok = sp.get("nargs") == "+" and mp.get("nargs") == "*" and isinstance(mp.get("action"), tuple) and "MapPortsAction" in mp["action"][1]
     r.ob(ok, Finding("D4", "main:arg_parser_init:port-options", f"-p must take one or more ports, -m zero or more a:b pairs via MapPortsAction; "
                                                                 f"found -p nargs={sp.get('nargs')!r}, -m nargs={mp.get('nargs')!r} action={mp.get('action')}", main.relpath))
+    # every occurrence of -p counts (documented usage `-p 443 -p 8443`): with nargs="+" alone argparse keeps only the last occurrence
+    r.instances += 1
+    r.ob(sp.get("action") == "extend", Finding("D4", "main:arg_parser_init:serverports-accumulate",
+                                              f"-p is declared with nargs='+' and action={sp.get('action')!r}: a second -p replaces the ports of the first one "
+                                              f"(`-p 9443 -p 8443` selects only 8443); the list must accumulate (action='extend')", main.relpath))
     # set_defaults(keep_original_ports=True)
     r.instances += 1
     f = tree.func("main", "arg_parser_init")
